@@ -1,5 +1,6 @@
 """Obligation framework for engine M."""
 from __future__ import annotations
+import os
 import re
 import time
 from . import terms as T
@@ -76,6 +77,8 @@ class Session:
         }
         if extra:
             r.update(extra)
+        if not ok and os.environ.get("VERIF_DEBUG"):
+            print("DEBUG-FAIL", ob, name, qr.verdict, (extra or {}).get("note", ""))
         self.results.append(r)
         return r
 
